@@ -6,7 +6,7 @@ from common import *
 PID = "C06"
 PROPS = "props/C06.v"
 GOTAB = ["ean.go"]
-GOFILES = ["ean.go"]
+GOFILES = ["ean.go", "all.go"]
 EXTRACT = ["base", "ean"]
 HANDLERS = ["h_ean.ml"]
 
@@ -224,3 +224,9 @@ Definition case_ok (c : list Z * option (bool * list Z * Z * list bool)) : bool 
     end
   end.
 """
+
+
+def extra(rep, impl_exe, model_exe, rng, tier):
+    # returned barcodes must remain what they were when other symbols are encoded afterwards
+    import held
+    return held.held_phase(rep, impl_exe, rng, ['ean'], n=10 if tier == "quick" else 80)
